@@ -238,7 +238,11 @@ def rule_c(ctx):
     if ctx.check(len(real) == 1, "C06-C", "shrink:single-exit", b.term(dbb)["span"], b.id, "loop exits: %s" % [(x, s) for x, s in real]):
         x, s = real[0]
         truth, src = edge_is_true(b, x, s)
-        okc = src is not None and src[0] == "bin" and src[1]["bin"] in ("Le", "Ge")
+        okc = src is not None and src[0] == "bin" and src[1]["bin"] in ("Le", "Ge", "Gt", "Lt")
+        if okc and src[1]["bin"] in ("Gt", "Lt"):
+            # `while cur > width { .. }`: the exit is the false edge of the strict comparison, i.e. cur <= width
+            src = (src[0], dict(src[1], bin={"Gt": "Le", "Lt": "Ge"}[src[1]["bin"]]))
+            truth = (not truth) if truth is not None else None
         if okc:
             ea, eb = norm(b.canon(src[1]["a"], env=env)), norm(b.canon(src[1]["b"], env=env))
             from ..widths import _is_width_call
